@@ -21,6 +21,8 @@ type seg struct {
 }
 
 func chainSegs(kind string, b []byte, str bool) (res []seg, err string) {
+	enter(b, kindName[kind]+" chain")
+	defer leave()
 	defer func() {
 		if e := recover(); e != nil {
 			err = fmt.Sprintf("panic: %v", e)
@@ -146,6 +148,8 @@ func monC05(b []byte) string {
 }
 
 func aliasCheck(b []byte) (msg string) {
+	enter(b, "First*/Step chain (aliasing monitor)")
+	defer leave()
 	defer func() {
 		if e := recover(); e != nil {
 			msg = fmt.Sprintf("panic: %v", e)
